@@ -151,18 +151,25 @@ def search(res, tier, seed, deep=False):
             x = dataset(r, T, X, Y)
             if i % 7 == 0: x[:] = 9.0          # all exceeding / none
             time = times(T, "20%02d-%02d-%02d" % (r.randint(1, 9), r.randint(1, 12), r.randint(1, 28)))
+            # the time axis need not be chronological (stacked ensemble members, a reversed or shuffled record)
+            order = ["chronological", "chronological", "reversed", "shuffled", "stacked"][i % 5]
+            if order == "reversed": x, time = x[::-1].copy(), time[::-1].copy()
+            elif order == "shuffled":
+                pp = np.array(r.sample(range(T), T)); x, time = x[pp].copy(), time[pp].copy()
+            elif order == "stacked" and T >= 60:
+                h_ = T // 2; time = np.concatenate([time[:h_], time[:T - h_]])      # two members over the same period
             ty = ["higher", "lower", "between", "outside"][i % 4]
             scope = ["overall", "month", "season", "day"][(i // 4) % 4]
             loc = ["global", "local"][(i // 16) % 2]
             keys = {"overall": None, "month": range(1, 13), "season": ["Spring", "Summer", "Autumn", "Winter"], "day": range(1, 367)}[scope]
             m = metric(ty, 3.0, 7.0, scope, loc, acc=True, keys=keys, shape=(X, Y), r=r)
-            inp = dict(type=ty, scope=scope, locality=loc, shape=[T, X, Y], seed=seed, i=i)
+            inp = dict(type=ty, scope=scope, locality=loc, shape=[T, X, Y], time_order=order, seed=seed, i=i)
             lo, hi = thresholds_table(m, x, time)
             want = defining(m, x, lo, hi)
             x0 = x.copy()
             try:
                 inst = m.calculate_instances_of_threshold_exceedance(x, time=time)
-                res.case(("laws", ty, scope, loc))
+                res.case(("laws", ty, scope, loc, order))
                 if not np.array_equal(inst.astype(bool), want):
                     report("instances:" + ty, inp, None, "instance array differs from the defining comparison")
                 total = int(want.sum())
@@ -194,6 +201,13 @@ def search(res, tier, seed, deep=False):
                 av = m.calculate_annual_value_beyond_threshold(x, time=time)
                 if abs(av.sum() - np.where(want, x0, 0).sum()) > 1e-9 * max(1.0, abs(x0.sum())):
                     report("annual-value", inp, None, "yearly sums beyond the threshold do not add up to the total amount beyond the threshold")
+                yrs_ = utils.year(time); uy_ = np.unique(yrs_)
+                want_av = np.array([np.where(want, x0, 0)[yrs_ == y_].sum(axis=0) for y_ in uy_])
+                want_ann = np.array([want[yrs_ == y_].sum(axis=0) for y_ in uy_])
+                if av.shape != want_av.shape or not np.allclose(av, want_av, atol=1e-9 * max(1.0, abs(x0.sum()))):
+                    report("annual-value:per-year", inp, None, "the amount beyond the threshold of a year is not the sum over that year's time steps")
+                if ann.shape != want_ann.shape or not np.array_equal(np.round(ann).astype(int), want_ann):
+                    report("annual-count:per-year", inp, None, "the annual count of a year is not the number of that year's time steps meeting the condition")
                 ii = m.calculate_intensity_index(x, time=time)
                 cnt = want.sum(axis=0)
                 wi = np.where(want, x0, 0).sum(axis=0) / np.where(cnt > 0, cnt, 1)
